@@ -8,7 +8,10 @@ import (
 	"crypto/tls"
 	"crypto/x509"
 	"fmt"
+	"sort"
 	"strings"
+	"sync"
+	"sync/atomic"
 	"testing"
 
 	"pgregory.net/rapid"
@@ -198,14 +201,15 @@ func (w *world) check(t *rapid.T, trace string, sub *stats.Sub) {
 }
 
 func TestPropNameOwnership(t *testing.T) {
-	sub := stats.NewSub("name-ownership-histories", "rapid state machine on the real controller: ops create/update a cluster (valid object; server names drawn from a pool with case variants; two in three not claimed by another object, one in three free to collide with names another cluster holds, including an object NAMED like another cluster's server name), delete, duplicate delivery (also of the delete event of a vanished or refused object); model: a delivery whose latest object claims a name held by another cluster is refused and changes nothing, any other delivery makes the latest object the served one; after every event, for every name of the pool x {as is, upper case, with port}: Manager.Get(HostWithoutPort(h)), the tls.Config for a ClientHello with that SNI (certificate, client-CA subjects) and SNIVerifyOptions must be those of the model's owner or nobody's (a name listed only by the refused or only by the still-served version of a cluster may resolve to it or to nobody); non-trivial = the history moves an alias between clusters, reuses a name after a delete, has a name owned under a different case than looked up, or has a refused object; distinct by FNV-64 of the op trace")
+	sub := stats.NewSub("name-ownership-histories", "rapid state machine on the real controller: ops create/update a cluster (valid object; server names drawn from a pool with case variants; two in three not claimed by another object, one in three free to collide with names another cluster holds, including an object NAMED like another cluster's server name), delete, duplicate delivery (the event may carry a superseded version of the object; also of the delete event of a vanished or refused object); model: a delivery whose latest object claims a name held by another cluster is refused and changes nothing, any other delivery makes the latest object the served one; during every update two readers look up the names the cluster keeps (they must resolve to it at every moment); after every event, for every name of the pool x {as is, upper case, with port}: Manager.Get(HostWithoutPort(h)), the tls.Config for a ClientHello with that SNI (certificate, client-CA subjects) and SNIVerifyOptions must be those of the model's owner or nobody's (a name listed only by the refused or only by the still-served version of a cluster may resolve to it or to nobody); non-trivial = the history moves an alias between clusters, reuses a name after a delete, has a name owned under a different case than looked up, or has a refused object; distinct by FNV-64 of the op trace")
 	mats := pki.Pool(5)
 	stats.Check(t, stats.N(1500, 8000), func(t *rapid.T) {
 		w := &world{box: ctlbox.New(), api: map[string]*proxyv1alpha1.UpstreamCluster{}, applied: map[string]*proxyv1alpha1.UpstreamCluster{}}
 		defer w.box.Close()
 		trace := ""
-		everOwned := map[string]string{}                       // name -> last owner, to detect moves / reuse
-		last := map[string]*proxyv1alpha1.UpstreamCluster{} // last object ever stored per name (to redeliver delete events)
+		everOwned := map[string]string{}                          // name -> last owner, to detect moves / reuse
+		last := map[string]*proxyv1alpha1.UpstreamCluster{}       // last object ever stored per name (to redeliver delete events)
+		versions := map[string][]*proxyv1alpha1.UpstreamCluster{} // every version stored since the object (re)appeared
 		nt := false
 		sub.Eval()
 		// deliver hands the event of cluster `name` to the controller and moves the model
@@ -228,7 +232,57 @@ func TestPropNameOwnership(t *testing.T) {
 				return
 			}
 			conflict := w.conflicts(name, obj)
-			res, err := w.box.Deliver(obj)
+			// the event may carry a SUPERSEDED version of the object (an earlier event still queued or requeued while
+			// the lister already has the latest one): the outcome must be that of the latest object
+			ev := obj
+			if vs := versions[name]; len(vs) > 1 && rapid.IntRange(0, 2).Draw(t, "eventCarriesAnOlderVersion") == 0 {
+				ev = vs[rapid.IntRange(0, len(vs)-2).Draw(t, "olderVersion")]
+				trace += "(event object: an older version) "
+				sub.Class("event-carries-a-superseded-version")
+			}
+			// names the cluster holds before and after this delivery must resolve to it AT EVERY MOMENT: two readers
+			// look them up while the controller processes the event
+			var kept []string
+			if cur := w.applied[name]; cur != nil && !conflict {
+				after := namesOf(name, obj)
+				for h := range namesOf(name, cur) {
+					if after[h] {
+						kept = append(kept, h)
+					}
+				}
+				sort.Strings(kept)
+			}
+			stopReaders := make(chan struct{})
+			var readers sync.WaitGroup
+			var missed atomic.Value
+			var lookups int64
+			for r := 0; r < 2 && len(kept) > 0; r++ {
+				readers.Add(1)
+				go func(r int) {
+					defer readers.Done()
+					for i := r; ; i++ {
+						select {
+						case <-stopReaders:
+							return
+						default:
+						}
+						h := kept[i%len(kept)]
+						if got := w.box.Owner(h); got != name {
+							missed.Store(fmt.Sprintf("%q resolved to %q", h, got))
+						}
+						atomic.AddInt64(&lookups, 1)
+					}
+				}(r)
+			}
+			res, err := w.box.Deliver(ev)
+			close(stopReaders)
+			readers.Wait()
+			if m := missed.Load(); m != nil {
+				t.Fatalf("while the update of %s was processed a name it keeps did not resolve to it: %v\ntrace: %s", name, m, trace)
+			}
+			if len(kept) > 0 {
+				sub.ClassN("lookups-concurrent-with-an-update", int(atomic.LoadInt64(&lookups)))
+			}
 			if conflict {
 				nt = true
 				sub.Class("refused-for-a-name-held-by-another-cluster")
@@ -276,6 +330,7 @@ func TestPropNameOwnership(t *testing.T) {
 				}
 				w.box.Store(obj)
 				w.api[name], last[name] = obj, obj
+				versions[name] = append(versions[name], obj)
 				trace += fmt.Sprintf("upsert(%s,names=%q);", name, obj.Spec.SecureServing.ServerNames)
 				deliver(t, name)
 			},
@@ -286,6 +341,7 @@ func TestPropNameOwnership(t *testing.T) {
 					t.Skip("not stored")
 				}
 				delete(w.api, name)
+				delete(versions, name)
 				w.box.Remove(obj)
 				trace += fmt.Sprintf("delete(%s);", name)
 				deliver(t, name)
